@@ -235,6 +235,8 @@ class Normalizer:
             self._replace_node(f, self.canonical_syntax(f))
         for f in list(repo.funcs.values()):
             self._replace_node(f, self.inline_temps(f))
+        for f in list(repo.funcs.values()):
+            self._replace_node(f, self.devirtualise(f))
         self.objects: t.Dict[t.Tuple[str, str], Cls] = {}
         for f in list(repo.funcs.values()):
             self._replace_node(f, self.find_objects(f))
@@ -251,6 +253,8 @@ class Normalizer:
         for f in list(repo.funcs.values()):
             self._replace_node(f, self.dissolve_objects(f))
         self._drop_unreferenced()
+        for f in list(repo.funcs.values()):
+            self._replace_node(f, self.inline_temps(f))  # the result locals N1 introduced
         for f in list(repo.funcs.values()):
             self._replace_node(f, self.thread_flags(f))
         for f in list(repo.funcs.values()):
@@ -384,8 +388,20 @@ class Normalizer:
                 continue
             mapping = {c: w for c, w in zip(f.params, want) if c != w}
             used = {n.id for n in ast.walk(f.node) if isinstance(n, ast.Name)} | {a.arg for a in ast.walk(f.node) if isinstance(a, ast.arg)}
-            if any(w in used and w not in mapping for w in mapping.values()) or f.node.args.vararg is not None or f.node.args.kwarg is not None:
-                continue  # a reference name is in use for something else: leave the function alone
+            if f.node.args.vararg is not None or f.node.args.kwarg is not None:
+                continue
+            clash = {w for w in mapping.values() if w in used and w not in mapping}
+            if clash:
+                # a reference name is now the name of a plain local: move that local out of the way first
+                stored = stored_names(f.node)
+                if not clash <= stored or any(isinstance(n, (ast.Global, ast.Nonlocal)) for n in ast.walk(f.node)):
+                    continue
+                aside = {w: f"{w}__l" for w in clash}
+                if any(v in used for v in aside.values()):
+                    continue
+                for n in ast.walk(f.node):
+                    if isinstance(n, ast.Name) and n.id in aside:
+                        n.id = aside[n.id]
             # the same method name defined elsewhere with other parameter names: keyword call sites would be ambiguous
             if sum(1 for g in repo.funcs.values() if g.name == f.name) > 1:
                 continue
@@ -730,7 +746,7 @@ class Normalizer:
             if unparse(d) not in ("staticmethod", "classmethod"):
                 return False
         a = h.args
-        if a.vararg or a.kwarg:
+        if a.kwarg:
             return False
         for n in _walk_no_scopes(h):
             if isinstance(n, (ast.Yield, ast.YieldFrom)):
@@ -765,8 +781,13 @@ class Normalizer:
                 raise NotInlinable("method without receiver parameter")
             given[plist[0].arg] = recv
             plist = plist[1:]
+        extra: t.List[ast.expr] = []
         if len(call.args) > len(plist):
-            raise NotInlinable("too many positionals")
+            if a.vararg is None:
+                raise NotInlinable("too many positionals")
+            extra = list(call.args[len(plist):])
+        if any(isinstance(v, ast.Starred) for v in extra):
+            raise NotInlinable("starred argument")
         for p, v in zip(plist, call.args):
             if isinstance(v, ast.Starred):
                 raise NotInlinable("starred argument")
@@ -786,9 +807,12 @@ class Normalizer:
                 given[p.arg] = d
         stored = stored_names(h)
         nonlocal_ = {n for st in ast.walk(h) if isinstance(st, (ast.Nonlocal, ast.Global)) for n in st.names}
-        rename = {n: f"{n}__i{k}" for n in (stored | names) - nonlocal_}
+        rename = {n: f"{n}__i{k}" for n in (stored | names | ({a.vararg.arg} if a.vararg else set())) - nonlocal_}
         subst: t.Dict[str, ast.expr] = {}
         prologue: t.List[ast.stmt] = []
+        if a.vararg is not None:
+            # *values receives the surplus positional arguments as a tuple
+            prologue.append(ast.copy_location(ast.Assign(targets=[ast.Name(id=rename[a.vararg.arg], ctx=ast.Store())], value=ast.Tuple(elts=[copy.deepcopy(v) for v in extra], ctx=ast.Load())), call))
         for p in params:
             v = given[p.arg]
             if p.arg not in stored and _is_pure(v) and (_is_pure_path(v) or isinstance(v, ast.Constant) or not any(isinstance(x, (ast.Slice, ast.Call)) for x in ast.walk(v))):
@@ -1320,6 +1344,19 @@ class Normalizer:
                 if isinstance(s_, ast.Try):
                     for h in s_.handlers:
                         h.body = block(h.body)
+                if isinstance(s_, ast.For) and not s_.orelse and table(s_.iter) is not None:
+                    # `if c: X; continue` + rest  ->  `if c: X else: rest`  (the only use of continue that is unrolled)
+                    def decontinue(body: t.List[ast.stmt]) -> t.List[ast.stmt]:
+                        for k, b_ in enumerate(body):
+                            if isinstance(b_, ast.If) and not b_.orelse and b_.body and isinstance(b_.body[-1], ast.Continue):
+                                new_if = copy.copy(b_)
+                                new_if.body = list(b_.body[:-1]) or [ast.copy_location(ast.Pass(), b_)]
+                                new_if.orelse = decontinue(list(body[k + 1:]))
+                                return list(body[:k]) + [new_if]
+                        return body
+
+                    s_ = copy.copy(s_)
+                    s_.body = decontinue(list(s_.body))
                 if isinstance(s_, ast.For) and not s_.orelse:
                     rows = table(s_.iter)
                     tn = {x.id for x in ast.walk(s_.target) if isinstance(x, ast.Name)}
@@ -1737,6 +1774,88 @@ class Normalizer:
                 self.log["positional"].append(f"{f.qual}:{n.lineno} {unparse(n.func)}")
         return new if hit else None
 
+    # ------------------------------------------------------------------------------------------ N28
+    def devirtualise(self, f: Func) -> t.Optional[FuncNode]:
+        """if c: fn = A  elif d: fn = B  else: raise ...      followed by      x = fn(args)
+        ->  the statement with the call is moved into each branch with the function named there (x = A(args) / x = B(args)).
+        fn is a local that holds a function of the package in every assigning leaf and is used exactly once, as the callee
+        of the statement that directly follows the if-nest."""
+        hit = [False]
+        loads: t.Dict[str, int] = {}
+        for n in _walk_no_scopes(f.node):
+            if isinstance(n, ast.Name) and isinstance(n.ctx, ast.Load):
+                loads[n.id] = loads.get(n.id, 0) + 1
+        repo = self.repo
+
+        def leaves(stmts: t.List[ast.stmt], fv: str) -> t.Optional[bool]:
+            """True: every non-terminating path through the block ends with `fv = <function name>`."""
+            if not stmts:
+                return False
+            last = stmts[-1]
+            for s_ in stmts[:-1]:
+                if any(isinstance(x, ast.Name) and x.id == fv for x in ast.walk(s_)):
+                    return False
+            if isinstance(last, ast.Assign) and len(last.targets) == 1 and isinstance(last.targets[0], ast.Name) and last.targets[0].id == fv:
+                v = last.value
+                return isinstance(v, ast.Name) and isinstance(repo.resolve_name(v.id, f.mod), Func)
+            if isinstance(last, (ast.Raise, ast.Return)):
+                return True
+            if isinstance(last, ast.If) and last.orelse:
+                return bool(leaves(last.body, fv)) and bool(leaves(last.orelse, fv))
+            return False
+
+        def push(stmts: t.List[ast.stmt], fv: str, user: ast.stmt) -> t.List[ast.stmt]:
+            out = list(stmts[:-1])
+            last = stmts[-1]
+            if isinstance(last, ast.Assign):
+                class R(ast.NodeTransformer):
+                    def visit_Name(self, n: ast.Name) -> ast.AST:
+                        if n.id == fv and isinstance(n.ctx, ast.Load):
+                            return ast.copy_location(copy.deepcopy(last.value), n)
+                        return n
+
+                out.append(t.cast(ast.stmt, R().visit(copy.deepcopy(user))))
+                return out
+            if isinstance(last, ast.If):
+                new = copy.copy(last)
+                new.body = push(last.body, fv, user)
+                new.orelse = push(last.orelse, fv, user)
+                out.append(new)
+                return out
+            out.append(last)
+            return out
+
+        def block(stmts: t.List[ast.stmt]) -> t.List[ast.stmt]:
+            out: t.List[ast.stmt] = []
+            i = 0
+            while i < len(stmts):
+                s_ = stmts[i]
+                if not isinstance(s_, (ast.FunctionDef, ast.AsyncFunctionDef, ast.ClassDef)):
+                    for fld in ("body", "orelse", "finalbody"):
+                        blk = getattr(s_, fld, None)
+                        if isinstance(blk, list) and blk and isinstance(blk[0], ast.stmt):
+                            setattr(s_, fld, block(blk))
+                nxt = stmts[i + 1] if i + 1 < len(stmts) else None
+                if isinstance(s_, ast.If) and s_.orelse and isinstance(nxt, (ast.Assign, ast.AnnAssign, ast.Expr, ast.Return)):
+                    callees = [x.func.id for x in ast.walk(nxt) if isinstance(x, ast.Call) and isinstance(x.func, ast.Name)]
+                    for fv in callees:
+                        if loads.get(fv, 0) == 1 and leaves([s_], fv):
+                            out += push([s_], fv, nxt)
+                            hit[0] = True
+                            i += 2
+                            break
+                    else:
+                        out.append(s_)
+                        i += 1
+                    continue
+                out.append(s_)
+                i += 1
+            return out
+
+        new = copy.deepcopy(f.node)
+        new.body = block(list(new.body))
+        return new if hit[0] else None
+
     # ------------------------------------------------------------------------------------------ N27
     def inline_temps(self, f: Func) -> t.Optional[FuncNode]:
         """t1 = g(a); t2 = h(b); x = f(t1, k=t2)   ->   x = f(g(a), k=h(b))
@@ -1778,6 +1897,12 @@ class Normalizer:
                     nm = d.targets[0].id
                     if stores.get(nm, 0) != 1 or loads.get(nm, 0) != 1 or nm in params:
                         continue
+                    if isinstance(user, ast.Raise) and isinstance(user.exc, ast.Name) and user.exc.id == nm and (user.cause is None or _is_pure(user.cause)):
+                        user.exc = t.cast(ast.expr, d.value)  # e = ValueError(..); raise e  ->  raise ValueError(..)
+                        del cur[i]
+                        hit[0] = True
+                        changed = True
+                        break
                     v = getattr(user, "value", None) if isinstance(user, (ast.Assign, ast.AnnAssign, ast.Return, ast.Expr, ast.AugAssign)) else None
                     if not simple_call(v):
                         continue
